@@ -20,6 +20,7 @@ import (
 	"strings"
 	"sync"
 	"testing"
+	"time"
 
 	"pgregory.net/rapid"
 
@@ -283,7 +284,7 @@ func c47Probe(baseDir string) (c47Div, []c47Finding, error) {
 func TestVerif_C47_Known(t *testing.T) {
 	vk := vkBegin(t, "C47")
 	vk.Rule("minimal frozen cases of the divergence classes found between the sqlite and the pebble tracker stores (3 listed as known, 2 fixed in /repo and kept as regressions); non-trivial = the case drives both real stores through the call that differed; distinct by class")
-	_, fs, err := c47Probe(t.TempDir())
+	_, fs, err := c47Probe(c47TempBase(t))
 	if err != nil {
 		t.Fatalf("probe failed: %v", err)
 	}
@@ -313,7 +314,7 @@ func TestVerif_C47_Known(t *testing.T) {
 func TestVerif_C47_Unimplemented(t *testing.T) {
 	vk := vkBegin(t, "C47")
 	vk.Rule("enumeration of the trackerdb methods the KV backend declares unimplemented (error \"not supported\", panic \"unimplemented\", or a TODO stub returning zero values); each is a case; non-trivial = still a declared gap; distinct by method")
-	st, dir, err := c47OpenStores(t.TempDir(), nil)
+	st, dir, err := c47OpenStores(c47TempBase(t), nil)
 	if err != nil {
 		t.Fatal(err)
 	}
@@ -659,7 +660,7 @@ func TestVerif_C47_Backends(t *testing.T) {
 		"applied to a real sqlite and a real pebble tracker store; after every step random reads of every family (through store, Snapshot or Transaction readers, and through snapshots opened before later commits), a full sweep at the end; " +
 		"oracle = trivial map model, compared with each backend; non-trivial = at least 3 committed steps touching at least 4 tables, at least 30 pebble-vs-model comparisons, and both found and not-found answers; distinct by the step history")
 	vk.Assume("the go-sqlite3 and pebble libraries themselves; refs are engine specific and compared as nil / non-nil (as dualdriver does); error texts are not compared, only ok / ErrNotFound / other error")
-	baseDir := t.TempDir()
+	baseDir := c47TempBase(t)
 	div, _, err := c47Probe(baseDir)
 	if err != nil {
 		t.Fatalf("probe failed: %v", err)
@@ -749,4 +750,27 @@ func c47RoundBucket(r uint64) string {
 	default:
 		return ">=255"
 	}
+}
+
+// c47TempBase returns a scratch directory, on a RAM-backed file system when there is one (the stores fsync on every
+// commit / open; on a loaded machine that dominates the run time). Removed at the end of the test; stale directories of
+// killed runs are swept.
+func c47TempBase(t *testing.T) string {
+	const shm = "/dev/shm"
+	if st, err := os.Stat(shm); err == nil && st.IsDir() {
+		if ents, err := os.ReadDir(shm); err == nil {
+			for _, e := range ents {
+				if strings.HasPrefix(e.Name(), "verif-c47-") {
+					if fi, err := e.Info(); err == nil && time.Since(fi.ModTime()) > 2*time.Hour {
+						os.RemoveAll(shm + "/" + e.Name())
+					}
+				}
+			}
+		}
+		if d, err := os.MkdirTemp(shm, "verif-c47-"); err == nil {
+			t.Cleanup(func() { os.RemoveAll(d) })
+			return d
+		}
+	}
+	return t.TempDir()
 }
